@@ -289,6 +289,12 @@ impl Envelope {
         let signature_objects = self.objects_for_predicate(known_values::SIGNED);
         let result: Option<Result<Option<Envelope>>> = signature_objects.iter().find_map(|signature_object| {
             let signature_object_subject = signature_object.subject();
+            if signature_object_subject.is_obscured() {
+                // A signature that has been elided, encrypted or compressed
+                // cannot be checked; it is not an error and must not hide
+                // the other signatures.
+                return None;
+            }
             if signature_object_subject.is_wrapped() {
                 if
                     let Ok(outer_signature_object) = signature_object.object_for_predicate(
